@@ -146,7 +146,7 @@ class Session:
             try:
                 src = inspect.getsource(f)
                 h = hashlib.sha256(src.encode()).hexdigest()[:12]
-                name = f"{f.__module__}.{f.__qualname__}"
+                name = f.__name__ if inspect.ismodule(f) else f"{f.__module__}.{f.__qualname__}"
             except (TypeError, OSError):
                 name, h = repr(f), "?"
             self.functions[name] = h
